@@ -135,9 +135,8 @@ impl<C: SymBridge> Lab<C> for SymLab<C> {
         let dfrom = (mark >> 32) as usize;
         let ds = symcore::decisions_since(dfrom);
         // the rejecting comparison: last non-zero-test comparison that came out "different"
-        let rej = ds.iter().rev().find(|d| {
-            d.a != 0 && d.b != 0 && matches!(d.outcome, Outcome::AssumedNe | Outcome::Forked(false) | Outcome::Infeasible)
-        });
+        // (verification equations are often written as `residual == identity`, so zero-tests count)
+        let rej = ds.iter().rev().find(|d| matches!(d.outcome, Outcome::AssumedNe | Outcome::Forked(false) | Outcome::Infeasible));
         match rej {
             None => symcore::check(true, &format!("{what}: rejected on structure")),
             Some(d) if d.outcome == Outcome::Infeasible => {
@@ -155,6 +154,16 @@ impl<C: SymBridge> Lab<C> for SymLab<C> {
                 symcore::prove_gr(resid, 0, &adv, what).is_some()
             }
         }
+    }
+    fn ne_generic_s(&mut self, a: Scalar<C>, b: Scalar<C>, what: &str) -> bool {
+        let resid = C::s_out(a) - C::s_out(b);
+        let adv = self.adv.clone();
+        symcore::prove_gr(resid, 0, &adv, what).is_some()
+    }
+    fn ne_generic_e(&mut self, a: Element<C>, b: Element<C>, what: &str) -> bool {
+        let resid = C::e_out(a).dlog() - C::e_out(b).dlog();
+        let adv = self.adv.clone();
+        symcore::prove_gr(resid, 0, &adv, what).is_some()
     }
     fn holds_eq_s(&mut self, a: Scalar<C>, b: Scalar<C>) -> Option<bool> {
         let (a, b) = (C::s_out(a), C::s_out(b));
